@@ -179,10 +179,13 @@ def resJson : Res → Json
 inductive Step17 where
   | con (op : Op Json Json)
   | poll (ids : List (Nat × Nat))
+  /-- a value change of one characteristic (no structural effect; its event ids are live ids) -/
+  | nop
 
 def step17Of (j : Json) : R Step17 := do
   match (← getStr j "op") with
   | "poll" => pure (.poll (← (← getArr j "ids").toList.mapM pairOf))
+  | "touch" => pure .nop
   | _ => pure (.con (← op17Of j))
 
 /-- aid / iid / type skeleton of a rendering -/
@@ -300,6 +303,7 @@ def runOps17 (s : Db Json Json) : List Step17 → List Json → Db Json Json × 
   | .con op :: rest, acc =>
     match s.step op with
     | (s', r) => runOps17 s' rest (resJson r :: acc)
+  | .nop :: rest, acc => runOps17 s rest (Json.mkObj [("ok", Json.null)] :: acc)
   | .poll ids :: rest, acc =>
     match s.renderCached true (fun _ => none) with
     | (rs, s1) =>
